@@ -45,6 +45,12 @@ def gen_cases(tier, seed):
         for cyc_ in (False, True):
             cases.append({"cyc": cyc_, "mode": "edge", "wt": "int", "k": 1, "ignore": [], "scale": [], "starts": [], "ends": [], "superset": None, "planted": [],
                           "spec": gen.spec(nodes, edges, eattr={e: {"flow": f} for e, f in zip(edges, fl)})})
+    # corpus: the same numbers stored as (unsigned) numpy integers, with an edge that the optimum over-covers
+    for npt in ("uint8", "uint16", "uint32", "uint64", "int64"):
+        for fl, sup, cyc_ in (([5, 5, 1], [5], False), ([200, 200], [200], False), ([5, 5, 1], None, False), ([5, 5, 1], None, True)):
+            nodes = [str(i) for i in range(len(fl) + 1)]; edges = list(zip(nodes, nodes[1:]))
+            sp_ = gen.spec(nodes, edges, eattr={e: {"flow": f} for e, f in zip(edges, fl)}); sp_["np_type"] = npt
+            cases.append({"cyc": cyc_, "mode": "edge", "wt": "int", "k": 1, "ignore": [], "scale": [], "starts": [], "ends": [], "superset": sup, "planted": [], "spec": sp_})
     n = 300 if tier == "quick" else 3500
     for i in range(n):
         rng = gen.rng_for("C07", seed, i)
@@ -90,6 +96,8 @@ def gen_cases(tier, seed):
                 e0 = rng.choice(base["edges"]); c["scale"] = [x for x in c["scale"] if models._elem(x[0]) != e0] + [[gen.jl(e0), 0]]     # a trusted edge may be switched off by scale 0
         drop = [e for e in [models._elem(x) for x in c["ignore"]] if rng.random() < 0.3]
         c["spec"] = I.spec_of(base, drop_attr=drop)
+        if wt == "int" and rng.random() < 0.08 and all(isinstance(f, int) and 0 <= f < 250 for f in base["flow"].values()):
+            c["spec"]["np_type"] = rng.choice(["uint8", "uint16", "uint32", "int32", "int64"])      # the same numbers as numpy scalars
         cases.append(c)
     return cases
 
@@ -159,7 +167,8 @@ def run_one(cls, case, k, viol, obs, desc, tagstr):
 
 def run_case(case):
     viol = []; obs = collections.Counter()
-    G = gen.build(case["spec"]); mode = case["mode"]; wt = case["wt"]; cyc = case["cyc"]; k = case["k"]
+    G = gen.build({k_: v_ for k_, v_ in case["spec"].items() if k_ != "np_type"})      # (the oracle works on plain Python numbers)
+    mode = case["mode"]; wt = case["wt"]; cyc = case["cyc"]; k = case["k"]
     ign = set(models._elem(e) for e in case["ignore"]); sc = {models._elem(e): f for e, f in case["scale"]}
     ignored = ign | {e for e, f in sc.items() if f == 0}
     if mode == "node":
